@@ -19,6 +19,8 @@ class C07(EvalFamProp):
         D = lambda *docs: {'docs': list(docs), 'style': ['flow', 0, 0]}
         d = lambda raw, **kw: dict({'raw': raw}, **kw)
         call = lambda f, items, **kw: M(items, tag={'k': 'call', 'f': f}, **kw)
+        F = lambda *docs: {'docs': list(docs), 'style': ['block', 0, 0], 'fam': 'fstr'}     # oracle-only: implicit f-strings
+        P = lambda text, kw=None: common_tagged({'s': {'p': text}}, kw)
         return [
             D(d(M({'f': Sempty('required')})), d(M({'f': call('rec.f', {})}), safe=False)),                                        # D07
             D(d(M({'d': S(5), 'f': call('rec.f', {'x': Stext('d', 'xref')})})), d(M({'d': S(6001)}), safe=False)),                # D07b
@@ -40,7 +42,20 @@ class C07(EvalFamProp):
             D(d(M({'steps': Q([], tag='append')}), safe=False), d(M({'c': call('rec.f', {'a': Stext('steps', 'xref')})}))),
             D(d(M({'k': S(1)})), d(M({'d': M({'steps': Q([], tag='extend', kw={'safe': False})})})), d(M({'c': call('rec.f', {'a': Stext('d.steps', 'xref')})}))),
             D(d(M({'steps': Q([], tag='extend')})), d(M({'c': call('rec.f', {'a': Stext('steps', 'xref')})}))),                         # safe operator: runs
+            # D50: a dynamic node moved by !prev from under an !unsafe mapping, then promoted by a deleting container
+            D(d(M({'a': M({'c': call('rec.f', {'x': S(1)})}, kw={'safe': False})})), d(M({'b': Stext('a.c', 'prev')})), d(M({'b': M({}, kw={'del': True})}))),
+            D(d(M({'a': M({'c': call('rec.f', {'x': S(1)})}, kw={'safe': False})})), d(M({'b': Stext('a.c', 'prev')})), d(M({'b': Q([], kw={'del': True})}))),
+            D(d(M({'a': M({'c': call('rec.f', {})})}), safe=False), d(M({'b': Stext('a.c', 'prev')})), d(M({'b': M({'p': S(2)}, kw={'del': True, 'prio': 1})}))),
+            D(d(M({'b': M({'p': S(1)})})), d(M({'a': M({'c': call('rec.f', {}, kw={'del': False})}, kw={'safe': False})})), d(M({'b': Stext('a.c', 'prev')}))),
+            # D49: an !unsafe mark on a value that is already a node: an implicit f-string (oracle-only), an explicit null
+            F(d(M({'a': P("f'{T(1)}'", kw={'safe': False})}))),
+            F(d(M({'k': S(1), 'a': P("f'{T(k)}'", kw={'safe': False, 'md': [['note', 1]]})}))),
+            F(d(M({'u': M({'a': P("f'{T(2)}'")}, kw={'safe': False})}))),
+            F(d(M({'a': P("f'{T(3)}'")}), safe=False)),
+            F(d(M({'a': P("f'{T(4)}'")}))),                                                                                        # safe f-string: runs
+            D(d(M({'a': S(None, kw={'safe': False}), 'c': call('rec.f', {'x': Stext('a', 'xref')})}))),
         ]
+
 
     @staticmethod
     def _objids(obs, root, cfg, w):
@@ -77,7 +92,20 @@ class C07(EvalFamProp):
         for c in out:
             for dd in c['docs']:
                 mark(dd['raw'])
+        # promotion family (D50): an unsafe dynamic node is moved by !prev under a safe parent (or onto a safe container), later
+        # stages replace it by deleting / non-deleting empty or non-empty mappings and lists
+        for _ in range(max(2, n // 8)):
+            out.append(gen_promotion_case(rng))
+        # implicit f-strings under !unsafe / !metadata{{'safe': False}} tags and in unsafe sources (D49): oracle-only
+        for _ in range(max(2, n // 10)):
+            out.append(gen_fstr_case(rng))
         return out
+
+    def model_requests(self, case):
+        return [] if case.get('fam') == 'fstr' else super().model_requests(case)
+
+    def model_obs(self, case, answers):
+        return {'err': 'unsupported'} if case.get('fam') == 'fstr' else super().model_obs(case, answers)
 
     def oracle(self, case, io, ans):
         nodes = io.get('nodes')
@@ -90,6 +118,7 @@ class C07(EvalFamProp):
         unsafe_only = set(v for v in (uns - saf) if re.fullmatch(r'[0-9]{4,}', v))
         stages = doc_safety(case['docs'])
         by_path = {n['p']: n for n in nodes}
+        origins = dyn_origins(case['docs'])
         # containers: objects of the evaluated config that sit ONLY at paths written ONLY by unsafe content
         unattributed = doc_moved_paths(case['docs'])
         written = {}
@@ -114,6 +143,10 @@ class C07(EvalFamProp):
             writers = [m[path] for m in stages if path in m]
             if writers and writers[-1]:
                 return f'{what} executed on behalf of the node at {path!r} whose latest writer is unsafe content (source added with safe=False or below !unsafe)'
+            org = origins.get(path)
+            if org is not None and org[1]:
+                return (f'{what} executed on behalf of the node at {path!r} whose dynamic content ({org[0]}) was written by unsafe content'
+                        + (f' and moved there by !prev from {org[2]!r}' if org[2] else ''))
             for v in unsafe_only:
                 if re.search(r'(?<![0-9])' + re.escape(v) + r'(?![0-9])', args):
                     return f'value {v} originating from unsafe content reached the code executed for {path!r} ({what})'
@@ -150,5 +183,94 @@ def doc_moved_paths(docs):
                     walk(c, path + (i,))
         walk(d['raw'], ())
     return out
+
+def common_tagged(n, kw):
+    if kw:
+        n['kw'] = kw
+        n['t'] = {'k': 'plain'}
+    return n
+
+DYN_TAGS = ('call', 'bind', 'eval', 'import', 'fstr')
+
+def dyn_origins(docs):
+    """{path string: (kind, unsafe?, moved-from or None)}: for every path, the latest stage that wrote a DYNAMIC node there
+    (directly, or by moving it there with !prev), with the unsafety of that content derived from the documents alone"""
+    acc = {}
+    for d in docs:
+        new, moves = {}, []
+        def walk(n, path, unsafe):
+            unsafe = unsafe or (n.get('kw') or {}).get('safe') is False
+            k = (n.get('t') or {}).get('k')
+            if k in DYN_TAGS:
+                new[path] = (k, unsafe, None)
+            elif 's' in n and 'p' in n['s']:
+                new[path] = ('fstr', unsafe, None)
+            elif k == 'prev' and 's' in n and 'x' in n['s']:
+                try:
+                    moves.append((path, tuple(NodePath.split_path(n['s']['x'])), unsafe))
+                except Exception:
+                    pass
+            if 'm' in n:
+                for key, c in n['m']:
+                    walk(c, path + (sc_py(key),), unsafe)
+            elif 'q' in n and k not in ('append', 'extend'):
+                for i, c in enumerate(n['q']):
+                    walk(c, path + (i,), unsafe)
+        walk(d['raw'], (), d.get('safe') is False)
+        for path, tgt, unsafe in moves:
+            sub = {q: v for q, v in acc.items() if q[:len(tgt)] == tgt}
+            for q in sub:
+                del acc[q]
+            for q, (kind, u, frm) in sub.items():
+                acc[path + q[len(tgt):]] = (kind, u or unsafe, frm or NodePath.join_path(list(tgt)))
+        acc.update(new)
+    return {NodePath.join_path(list(q)): v for q, v in acc.items()}
+
+def gen_promotion_case(rng):
+    call = lambda f, items, kind='call', **kw: M(items, tag={'k': kind, 'f': f}, **kw)
+    kind = rng.choice(['call', 'call', 'bind'])
+    f = rng.choice(['rec.f', 'rec.g'])
+    args = rng.choice([{}, {'x': S(1)}, {0: S(2)}])
+    dkw = rng.choice([{}, {}, {'del': False}, {'prio': 1}])
+    node = rng.choice([call(f, args, kind, kw=dkw), call(f, args, kind, kw=dkw), Stext('T(1)', 'eval'), Q([call(f, args, kind)])])
+    mode = rng.randrange(3)                     # how the node is unsafe: enclosing !unsafe mapping, unsafe source, both
+    holder = M({'c': node}, kw=({'safe': False} if mode != 1 else {}))
+    first = {'raw': M({'a': holder, 'k': S(7)})}
+    if mode != 0:
+        first['safe'] = False
+    dest = rng.choice([('b',), ('b',), ('w', 'b')])
+    def at(path, n):
+        for key in reversed(path):
+            n = M({key: n})
+        return n
+    move = {'raw': at(dest, Stext('a.c', 'prev'))}
+    repl_kw = rng.choice([{'del': True}, {'del': True}, {'del': True, 'prio': 1}, {}, {'del': False}])
+    repl = rng.choice([M({}, kw=repl_kw), M({'p': S(3)}, kw=repl_kw), Q([], kw=repl_kw), Q([S(4)], kw=repl_kw), M({}, kw=repl_kw)])
+    docs = [first, move, {'raw': at(dest, repl)}]
+    if rng.random() < 0.35:                     # the container is there first: the moved node is merged ONTO it
+        docs = [{'raw': at(dest, rng.choice([M({'p': S(5)}), M({}), Q([S(6)])]))}, first, move]
+        if rng.random() < 0.5:
+            docs.append({'raw': at(dest, repl)})
+    if rng.random() < 0.3:
+        docs.append({'raw': M({'r': call('rec.f', {'v': Stext(NodePath.join_path(list(dest)), 'xref')})})})
+    return {'docs': docs, 'style': ['flow', 0, 0]}
+
+def gen_fstr_case(rng):
+    P = lambda text, kw=None: common_tagged({'s': {'p': text}}, kw)
+    i = rng.randrange(1, 9)
+    body = rng.choice([f"f'{{T({i})}}'", f"f'v{{T({i}, k)}}'", f'f"{{T({i})}}"'])
+    how = rng.randrange(5)
+    kw = [{'safe': False}, {'safe': False, 'md': [['note', 1]]}, None, None, None][how]
+    leaf = P(body, kw)
+    doc = M({'k': S(1), 'a': (M({'s': leaf}, kw={'safe': False}) if how == 2 else leaf)})
+    d = {'raw': doc}
+    if how == 3:
+        d['safe'] = False
+    docs = [d]
+    if rng.random() < 0.4:
+        docs.append({'raw': M({'z': S(2)})})
+    if rng.random() < 0.3:
+        docs.insert(0, {'raw': M({'k': S(3)})})
+    return {'docs': docs, 'style': ['block', 0, 0], 'fam': 'fstr'}
 
 PROP = C07()
